@@ -780,7 +780,7 @@ def _cases(ctx):
             yield json.loads(f.read_text())["case"]
     thorough = ctx.tier == "thorough" or ctx.deep
     yield from exhaustive_cases(4 if thorough else 3)
-    for _ in range(ctx.budget(400, 6000)):
+    for _ in range(ctx.budget(1500, 20000)):
         yield gen_case(ctx.rng)
 
 
